@@ -33,6 +33,7 @@ thread_local! {
     /// an earlier sampled call (inputs + result) kept for the history-independence probe
     static PAST_CALL: RefCell<Option<(Params, Location, NaiveDate, Option<Weather>, Res)>> = RefCell::new(None);
     static OLD_CALL: RefCell<Option<(Params, Location, NaiveDate, Option<Weather>, Res)>> = RefCell::new(None);
+    static PREV_INPUT: std::cell::Cell<Option<(Location, NaiveDate)>> = const { std::cell::Cell::new(None) };
 }
 const PROBE_EVERY_DEFAULT: u64 = 509;
 
@@ -79,8 +80,12 @@ pub fn call(
             }
         }
         st.count("fault_injection.failed_request_then_retry");
-        let _ = catch_unwind(AssertUnwindSafe(|| prayer_times_dt(&pb, l, d, w)));
+        // alternately the failed request is for the SAME place and date, or for the place and date of the previous
+        // in-domain call (same weather, same call path)
+        let (lb, db) = if (st.evaluations / 7_919) % 2 == 0 { (l, d) } else { PREV_INPUT.with(|c| c.get()).unwrap_or((l, d)) };
+        let _ = catch_unwind(AssertUnwindSafe(|| prayer_times_dt(&pb, lb, db, w)));
     }
+    PREV_INPUT.with(|c| c.set(Some((l, d))));
     let r = match catch_unwind(AssertUnwindSafe(|| prayer_times_dt(p, l, d, w))) {
         Ok(r) => Ok(r),
         Err(_) => Err(LAST_PANIC.with(|p| p.borrow().clone())),
